@@ -562,3 +562,33 @@ def _replay_later_year(model, contract):
 
 
 CONTRACTS["optimization:TotalSpendConstraint.get_hard_constraint#total_of_a_year_the_constraint_does_not_name"]["replay_hook"] = _replay_later_year
+
+
+# ---- SpendingAdjustment.__init__ (C14 / C15: "adjusted values all lie within the bounds given"): one adjustable per year, each with the bounds and the initial value given for
+# THAT year (a single bound / initial value is used for every year); a number of bounds that is neither one nor the number of years is refused
+def _env_sa(lower, upper, initial, t=(2020.0, 2021.0)):
+    def make(it):
+        from pyvc.interp import PyObjV
+        from pyvc import source
+
+        L, U0, U1, I0, I1 = (z3.Real(n) for n in ("L", "U0", "U1", "I0", "I1"))
+        pick = {"L": L, "[U0,U1]": [U0, U1], "[U0]": [U0], "None": None, "[I0,I1]": [I0, I1], "[L,L,L]": [L, L, L]}
+        return {"self": PyObjV("SpendingAdjustment", source.load("optimization"), {}), "prog_name": "prog", "t": list(t), "limit_type": "rel", "lower": pick[lower], "upper": pick[upper], "initial": pick[initial],
+                "L": L, "U0": U0, "U1": U1, "I0": I0, "I1": I1}
+
+    return make
+
+
+_sa_stubs = {"sc.promotetoarray": (lambda it, x: list(x) if isinstance(x, (list, tuple)) else [x]), "sc.promotetolist": (lambda it, x, keepnone=False: list(x) if isinstance(x, list) else [x])}
+CONTRACTS["optimization:SpendingAdjustment.__init__#bounds_per_year"] = dict(
+    schema=schema, make_env=_env_sa("L", "[U0,U1]", "None"), call_stubs=_sa_stubs, concrete_new=["Adjustable"],
+    ensures=[("C14+C15.one_adjustable_per_year_with_the_bounds_given_for_that_year", "len(self.adjustables) == 2 and self.adjustables[0].lower_bound == L and self.adjustables[1].lower_bound == L and self.adjustables[0].upper_bound == U0 and self.adjustables[1].upper_bound == U1"),
+             ("C14+C15.limit_type_program_and_years_are_kept", "self.adjustables[0].limit_type == 'rel' and self.adjustables[1].limit_type == 'rel' and self.prog_name == 'prog' and self.name == 'prog' and list(self.t) == [2020.0, 2021.0]"),
+             ("C14+C15.without_initial_values_the_starting_point_comes_from_the_instructions", "self.adjustables[0].initial_value is None and self.adjustables[1].initial_value is None")],
+    defined_props=["C14", "C15"])
+CONTRACTS["optimization:SpendingAdjustment.__init__#initial_values_per_year"] = dict(
+    schema=schema, make_env=_env_sa("L", "[U0]", "[I0,I1]"), call_stubs=_sa_stubs, concrete_new=["Adjustable"],
+    ensures=[("C14+C15.each_year_starts_from_its_own_initial_value", "len(self.adjustables) == 2 and self.adjustables[0].initial_value == I0 and self.adjustables[1].initial_value == I1 and self.adjustables[0].upper_bound == U0 and self.adjustables[1].upper_bound == U0")],
+    defined_props=["C14", "C15"])
+CONTRACTS["optimization:SpendingAdjustment.__init__#wrong_number_of_bounds"] = dict(
+    schema=schema, make_env=_env_sa("[L,L,L]", "[U0]", "None"), call_stubs=_sa_stubs, concrete_new=["Adjustable"], raises={"AssertionError": "True"}, raises_props=["C14", "C15", "C18"], ensures=[], defined_props=["C14", "C15"])
